@@ -533,15 +533,19 @@ func runC09(rc *fw.RunCtx) {
 		out       *EvalOutcome
 	}
 	var denv []*denvEval
+	var hostMapCheck map[string]any
 	if g.Chance(1, 3) {
-		const plain = `[math.sqrt(16.0), strings.repeat("ab", 2), math.abs(-3), math.PI > 3.1]`
+		// one host map handed to every configuration (each copies what it needs)
+		hostMap := map[string]any{"hostval": 41}
+		hostMapCheck = hostMap
+		const plain = `[math.sqrt(16.0), strings.repeat("ab", 2), math.abs(-3), math.PI > 3.1, hostval + 1]`
 		for i, n := 0, g.Range(1, 3); i < n; i++ {
-			denv = append(denv, &denvEval{src: plain, want: `[4, "abab", 3, true]`, opts: []risor.Option{risor.WithConcurrency()}, out: &EvalOutcome{}})
+			denv = append(denv, &denvEval{src: plain, want: `[4, "abab", 3, true, 42]`, opts: []risor.Option{risor.WithGlobals(hostMap), risor.WithConcurrency()}, out: &EvalOutcome{}})
 		}
 		sandbox := &denvEval{
-			src:  `[try(func() { return math.sqrt(4.0) }, func(e) { return "denied" }), try(func() { return strings.repeat("x", 2) }, func(e) { return "denied" }), math.abs(-3), math.PI]`,
-			want: `["denied", "denied", 3, 3]`,
-			opts: []risor.Option{risor.WithConcurrency(), risor.WithoutGlobals("math.sqrt", "strings.repeat"), risor.WithGlobalOverride("math.PI", 3)},
+			src:  `[try(func() { return math.sqrt(4.0) }, func(e) { return "denied" }), try(func() { return strings.repeat("x", 2) }, func(e) { return "denied" }), math.abs(-3), math.PI, added]`,
+			want: `["denied", "denied", 3, 3, 5]`,
+			opts: []risor.Option{risor.WithGlobals(hostMap), risor.WithConcurrency(), risor.WithoutGlobals("math.sqrt", "strings.repeat", "hostval"), risor.WithGlobalOverride("math.PI", 3), risor.WithGlobal("added", 5)},
 			out:  &EvalOutcome{},
 		}
 		at := g.Intn(len(denv) + 1)
@@ -650,6 +654,12 @@ func runC09(rc *fw.RunCtx) {
 	for _, name := range codecNames {
 		if _, err := builtins.GetCodec(name); err != nil {
 			rc.Violate("interference/codec-registry-lost-update", "codec %q was registered successfully by a host task while other registrations and evaluations were running, and is gone: %v", name, err)
+			return
+		}
+	}
+	if len(denv) > 0 {
+		if len(hostMapCheck) != 1 || hostMapCheck["hostval"] != 41 {
+			rc.Violate("interference/host-map-modified", "the map the host passed to WithGlobals was modified by the configurations built from it: %v entries", len(hostMapCheck))
 			return
 		}
 	}
